@@ -39,6 +39,16 @@ FIXED += [
     ("D19", ["C18"], "fix: reconnecting client honours RetryBaseDelay/RetryMaxDelay from the first retry", "first-backoff-ignores-retry-delays",
      "client.Reconnect never reset the backoff after configuring it: with RetryBaseDelay=RetryMaxDelay=2ms, Close right after the first stream failure returned after 500ms"),
 ]
+FIXED += [
+    ("D7", ["C12"], "fix: cache handles notifications whose joined path is empty or the bare meta root", "empty-or-meta-alone-path",
+     "an update or delete whose prefix+path is empty, an atomic update with an element-less prefix, or the path 'meta' alone made the cache panic (index out of range)"),
+    ("D8b", ["C12"], "fix: cache rejects metadata updates that carry no value instead of panicking", "meta-update-without-value",
+     "an update for meta/sync, meta/connected, meta/connectedAddress or meta/connectError without a val dereferenced a nil pointer"),
+    ("D9", ["C12"], "fix: cache metadata refresh does not assume the type of stored metadata leaves", "meta-leaf-wrong-type",
+     "after an accepted update for meta/<counter> carrying another type (or no value, or an atomic container) the next UpdateMetadata/Reset panicked on a type assertion"),
+    ("D10", ["C12"], "fix: cli group display accepts an update for the root path", "cli-root-update",
+     "a response with an empty update path and no target made the grouped CLI display panic (index out of range in pathmap.add)"),
+]
 OPEN = [
     dict(id="D15", properties=["C19"], status="open", **{"class": "query-elem-edge-slash"}, part="query",
          what="a client query whose last element ends with '/' loses that element on the way to the server (e.g. [\"/\"] is indexed as []): ygot's string path parser drops the last part of a string ending in '/', even the escaped one pathToString produces; no small safe repair (the string round trip is what parses [k=v] keys)",
